@@ -60,6 +60,22 @@ Theorem C01_read_pass_safe : forall (l : bytes) base coll_ok,
 Proof. exact read_pass_arbitrary_bytes. Qed.
 Print Assumptions C01_read_pass_safe.
 
+(* ... and the two models of readPass meet: on EVERY pass whose offsets the model above accepts, the reads that build the state
+   machine's tables (Model/FsmModel.v: ranges, rule-map offsets and rule map, pre-context bounds, start states, sort keys, the
+   transition table) all fall inside the pass — the second model, which repeats the first one's offset arithmetic, never traps. *)
+From GR Require Import Model.FsmModel Proofs.PassFsm.
+Theorem C01_pass_tables_read_in_bounds : forall (l : bytes) base coll_ok rs,
+  read_pass (mem_of_list l) base coll_ok = PAccept rs -> read_fsm (mem_of_list l) <> FTrap.
+Proof. exact read_pass_accept_fsm_no_trap_bytes. Qed.
+Print Assumptions C01_pass_tables_read_in_bounds.
+(* non-vacuity: the compiled two-rule pass of C02_example_fsm, at subtable offset 66, is accepted by both *)
+Example C01_example_pass_tables :
+  let p := mem_of_list [0; 1; 2; 0; 0; 2; 0; 0; 0; 0; 0; 162; 0; 0; 0; 162; 0; 0; 0; 162; 0; 0; 0; 0; 0; 3; 0; 2; 0; 2; 0; 2; 0; 2; 0; 0; 0; 0; 0; 0; 0; 5; 0; 5;
+      0; 0; 0; 6; 0; 6; 0; 1; 0; 0; 0; 1; 0; 2; 0; 1; 0; 0; 0; 0; 0; 0; 0; 2; 0; 1; 0; 0; 0; 0; 0; 0; 0; 0; 0; 0; 0; 0; 0; 0; 5; 0; 9; 0; 1; 0; 0; 0; 0; 0; 2; 0; 28; 0; 25;
+      25; 49; 28; 1; 25; 49]%N in
+  (exists rs, read_pass p 66 true = PAccept rs /\ length rs = 15%nat) /\ (exists f, read_fsm p = FOk f /\ f_nrules f = 2%N).
+Proof. split; eexists; (split; [vm_compute; reflexivity|]); vm_compute; reflexivity. Qed.
+
 (* The glyph-attribute reader (GlyphCache::Loader, read_glyph, the Glat run iterators): for ARBITRARY Gloc and Glat bytes the header
    checks never read outside the tables, and once they accepted the pair, reading the attributes of ANY glyph below the
    attributed-glyph count never reads outside either table and ends by itself (fuel is not what stops the iterator). *)
